@@ -57,8 +57,8 @@ Fixpoint tR (fuel : nat) (t : tree) : R :=
   end.
 Definition tRR (t : tree) : R := tR 40 t.
 
-(* [cW, fix_d20] *)
-Definition tCfg (t : tree) : cfg := mkCfg (tZ (tNth t 0)) (tB (tNth t 1)).
+(* [cW, fix_d20, has_color?]  (a missing third field = no colour system) *)
+Definition tCfg (t : tree) : cfg := mkCfgC (tZ (tNth t 0)) (tB (tNth t 1)) (tB (tNth t 2)).
 
 Definition ofLinesText (ls : list line) : tree := ofList (fun l => ofStr (line_text l)) ls.
 Definition ofM (m : Z * Z) : tree := L [I (fst m); I (snd m)].
